@@ -37,6 +37,7 @@ def run(ctx):
     ctx.rule('C04.R8', 'the remote listing is used only when the listing command succeeded (a partial listing is never taken for the tree)', floor=1)
     eff = Effects(F)
     ctx.attempt(r1, ctx, F)
+    ctx.attempt(whole_file_copy, ctx, F)
     ctx.attempt(C15.delete_sources, ctx, F, 'C04.R1')
     ctx.attempt(C14.r2, ctx, F, 'C04.R9')
     # the plan itself: which files are sent / skipped / deleted is part of this property's statement (= C19.R1)
@@ -143,6 +144,22 @@ def from_plan_transfer(fl, next_origins):
         if not any(x.kind == 'call' and x.key == 'plan::build_plan' and x.path[-1:] == ('transfer',) for x in io):
             return False
     return True
+
+
+def whole_file_copy(ctx, F):
+    """'byte-identical at the destination' rests on the local delivery copying the WHOLE file: fs::copy / io::copy do; a copy
+    loop of the crate's own (chunks read and written one by one, some possibly skipped - holes, dedup) has to write every byte or
+    set the length itself - a statement about that loop, not decided here (and not passed silently either)."""
+    cg = callgraph_of(F)
+    graph = cg.reach(['incremental::deliver_local'])
+    if not graph:
+        return
+    whole = cg.call_sites(lambda c: c.endswith('fs::copy') or c.endswith('io::copy') or c.endswith('io::copy_buf'), within=graph)
+    chunked = cg.call_sites(lambda c: c.split('::')[-1] in ('write_all', 'write', 'write_vectored', 'write_all_buf') and ('Write' in c), within=graph)
+    if chunked and not whole:
+        b_, bb_, c_ = chunked[0]
+        ctx.undecided('C04.R1', 'deliver_local fills the staging file with chunk-wise writes of its own (%s in %s) instead of a whole-file copy: that every byte of the source is written, '
+                      'or the length set, is not decided' % (c_.split('::')[-1], b_.path.split('::{')[0].split('::')[-1]))
 
 
 def r2(ctx, F, eff):
